@@ -52,6 +52,7 @@ def units(tier):
             out.append((d, "strategy"))
     out += [(None, "generic_specialisations"), (None, "same_name_classes"), (None, "init_false_field"), (None, "fixed_unpacked_tuple")]
     out += [(None, "constraints", t) for t in CONSTRAINT_TARGETS]
+    out += [(None, "forward_refs")]
     return out
 
 
@@ -281,7 +282,17 @@ def run_shape_special(unit, res):
                                                                      facts=dict(scenario=kind)), detail)
     with space.Ctx() as ctx:
         cases = []
-        if kind == "init_false_field":
+        if kind == "forward_refs":
+            # string annotations (direct and nested in a generic alias) in the members of dataclass / NamedTuple / TypedDict holders
+            ctx.run("@dataclass\nclass Item:\n    a: int\n")
+            Item = ctx.ns["Item"]
+            for spelling, val in (('"Item"', Item(1)), ('List["Item"]', [Item(1)]), ('Optional["Item"]', None), ('Dict[str, "Item"]', {"k": Item(2)})):
+                for holder, head in (("FD", "@dataclass\nclass FD:\n"), ("FN", "class FN(NamedTuple):\n"), ("FT", "class FT(TypedDict):\n")):
+                    n = ctx.fresh(holder)
+                    ctx.run(head.replace(holder, n) + f"    x: {spelling}\n")
+                    H = ctx.ns[n]
+                    cases.append((H, {"x": val} if holder == "FT" else H(val)))
+        elif kind == "init_false_field":
             ctx.run("@dataclass\nclass IF:\n    a: int\n    b: int = field(default=5, init=False)\n    c: List[int] = field(default_factory=list, init=False)\n")
             IF = ctx.ns["IF"]
             cases = [(IF, IF(1)), (List[IF], [IF(2)])]
@@ -417,7 +428,7 @@ def run_special(unit, res):
     if unit[1] == "constraints":
         return run_constraints(unit, res)
     """Distinct classes / generic specialisations must not share one definition."""
-    if unit[1] in ("init_false_field", "fixed_unpacked_tuple"):
+    if unit[1] in ("init_false_field", "fixed_unpacked_tuple", "forward_refs"):
         return run_shape_special(unit, res)
     import dataclasses
     from typing import Generic, List, TypeVar
